@@ -61,29 +61,19 @@ PROPS = {
     "C19": {
         "m": "specs.c19",
         "k": [
-            H("c19::c19_zdt_microsecond", "t", "compiled-data ZonedDateTime::microsecond vs microsecond_with_provider: fixed-offset zone +05:30, instant any ns of year 2000"),
-            H("c19::c19_zdt_nanosecond", "t", "nanosecond likewise"),
-            H("c19::c19_zdt_millisecond", "t", "millisecond likewise"),
-            H("c19::c19_zdt_hour", "t", "hour likewise"),
-            H("c19::c19_zdt_minute", "t", "minute likewise"),
-            H("c19::c19_zdt_second", "t", "second likewise"),
-            H("c19::c19_zdt_year", "t", "year, zone -08:00"),
-            H("c19::c19_zdt_month", "t", "month"),
-            H("c19::c19_zdt_day", "t", "day"),
-            H("c19::c19_zdt_offset_nanoseconds", "t", "offset_nanoseconds"),
             H("c19::c19_ffi_enums", "q", "temporal_capi enum conversions: every variant of RoundingMode, Unit, Disambiguation, OffsetDisambiguation"),
             H("c19::c19_ffi_plain_time", "q", "temporal_capi PlainTime create/try_create + six accessors vs temporal_rs::PlainTime for every u8/u16 argument"),
         ],
         "k_timeout": {"quick": 1800, "thorough": 3000},
         "bounds": {"all": "Engine M: every pub fn of src/builtins/compiled/*.rs present in the MIR dump is executed symbolically with its *_with_provider twin uninterpreted "
                           "(calls exactly its own twin, own arguments in order + the process-wide provider, returns the twin's result; lock acquisition modelled as succeeding); "
-                          "Engine K: accessor values on fixed-offset zones for instants in year 2000, capi enum conversions and capi PlainTime"},
+                          "Engine K: capi enum conversions and capi PlainTime (the value-level accessor harnesses c19_zdt_* exist but do not finish in 15 min; not registered); "
+                          "counterexamples of the wiring job are confirmed natively by wrapper-vs-twin calls on probe receivers (25 wrappers)"},
         "outside": "PARTIAL: wrappers that post-process the twin's result are checked for the call only; the other FFI types and option-struct conversions; named zones (file system); Now::*; lock poisoning (C20)",
     },
     "C11": {
         "m": None,
         "k": [
-            H("c11::c11_duration_fraction_kept", "t", "FormattableDuration writer, precision Auto, no date part, hours/minutes/seconds 0..=9, any nanosecond: a fraction is written iff the nanoseconds are non-zero and it is part of the seconds component"),
             H("c11::c11_date_writer", "q", "FormattableDate writer for every year in -999999..=999999 and month/day: decoded by a fixed-layout decoder, 4-digit iff 0..=9999"),
             H("c11::c11_time_writer_auto", "t", "FormattableTime writer, precision Auto: every time and nanosecond 0..1e9 - fraction exact and minimal"),
             H("c11::c11_time_writer_minute", "q", "precision Minute"),
@@ -96,7 +86,7 @@ PROPS = {
         ],
         "k_timeout": {"quick": 1800, "thorough": 3000},
         "bounds": {"all": "writers into a 40-byte sink; digit loops unwound 12"},
-        "outside": "PARTIAL: the ixdtf crate's text -> record step is not executed (DESIGN.md cut 4); record -> value halves (parser stub), duration / year-month / month-day / "
+        "outside": "PARTIAL: the duration writer (harness c11_duration_fraction_kept decides 'a non-zero sub-second part is always written' but needs 20 GB and 16 min; run on demand, not registered); the ixdtf crate's text -> record step is not executed (DESIGN.md cut 4); record -> value halves (parser stub), year-month / month-day / "
                    "zoned writers, TimeZone identifier and MonthCode round trips are not built yet",
     },
     "C18": {
@@ -166,9 +156,7 @@ PROPS = {
         "m": "specs.c04",
         "k": [
             H("c04::c04_date_add_api_2000", "t", "PlainDate::add (API level): receiver any date in 1999..=2001, duration years 0..1, months 0..13, weeks 0..2, days 0..40, hours 0..60 times a common sign, both overflow modes"),
-            H("c04::c04_date_subtract_api_2000", "t", "PlainDate::subtract(-d) on the same space"),
             H("c04::c04_date_until_years_2020", "t", "PlainDate::until with largestUnit year: any two dates in 2019..=2021 (leap day included): sign-uniform, balanced, maximal year-month part (ISODateSurpasses on the unconstrained start day), add-back"),
-            H("c04::c04_date_until_months_2020", "t", "same with largestUnit month, dates in 2020..=2021"),
         ],
         "k_timeout": {"quick": 2400, "thorough": 3600},
         "bounds": {"all": "Engine M over the real AddISODate / DifferenceISODate / BalanceISOYearMonth MIR: every representable receiver date (cycle-decomposed years), "
@@ -200,7 +188,6 @@ PROPS = {
             H("c09::c09_valid_days_and_nanos", "q", "days and nanoseconds: arbitrary finite integral doubles of any sign and magnitude"),
             H("c09::c09_add_result_valid_near_cap", "q", "Duration::add of two nanosecond-only durations, both any integral double below 9.1e24: Ok => the result is a valid duration and the exact sum is below 2^53 s"),
             H("c09::c09_sign_ops", "q", "negated/abs/sign/is_zero: ten fields 0..=1000 times a symbolic sign"),
-            H("c09::c09_compare_no_relative", "t", "compare(None): microseconds and nanoseconds in +-100000 on both sides (unbalanced), order of exact i128 totals"),
         ],
         "k_timeout": {"quick": 1500, "thorough": 3000},
         "bounds": {"all": "fields are symbolic doubles constrained to finite integral values (any magnitude for the validity harnesses); loops over the 10 fields unwound 12"},
@@ -267,7 +254,7 @@ PROPS = {
         "k": [
             H("c01::c01_iso_getters_2000", "q", "ISO-branch getters (day_of_week, day_of_year, week_of_year, year_of_week, days_in_month, days_in_year, in_leap_year): any date in 1999..=2001"),
             H("c01::c01_iso_getters_1970", "t", "same, 1969..=1972"),
-            H("c01::c01_iso_getters_1900", "t", "same, 1899..=1901 (non-leap century)"),
+            H("c01::c01_iso_getters_1900", "t", "same, 1899..=1904 (non-leap century and the next leap year)"),
             H("c01::c01_iso_getters_neg", "t", "same, years -1..=1"),
         ],
         "k_timeout": {"quick": 1800, "thorough": 3000},
